@@ -1,6 +1,6 @@
 (* C16 - Method calls get exactly one correctly correlated reply.
    spec_reply is the property's table (Spec/C16Spec.v), with literal message-type / return-code numbers. *)
-From PS Require Import Lib.Base Generated.Consts Model.SdTypes Model.ServiceRecv Spec.C16Spec Proofs.C16Proofs.
+From PS Require Import Lib.Base Generated.Consts Model.SdTypes Model.ServiceRecv Spec.C16Spec Proofs.C16Proofs Model.Skel Generated.LogicGen Proofs.GenSkel.
 
 Theorem C16_reply : forall svc ver ms m mc h,
   fst (service_receive svc ver ms m mc h) = spec_reply svc ver ms m mc h.
@@ -28,8 +28,18 @@ Example C16_nonvacuous :
   = Some (mkMsg 0x1234 7 9 3 1 128 1 0 [5]).
 Proof. reflexivity. Qed.
 
+(* the decision chain of SimpleService.message_received in the model IS the chain translated from the source text of
+   service.py on every run: the order of the checks, the error code of each, when the handler is called *)
+Theorem C16_model_is_the_translated_source : forall svc_id ver methods m mc h,
+  service_receive svc_id ver methods m mc h
+  = let '(g, called) := gen_service_receive svc_id ver (memN (m_mid m) methods) m mc
+                          (match h with HMalformed => true | _ => false end) (match h with HBytes _ => true | _ => false end) in
+    (reply_of m h g, called).
+Proof. exact service_receive_is_the_translated_source. Qed.
+
 Print Assumptions C16_reply.
 Print Assumptions C16_ff_no_response.
 Print Assumptions C16_reply_correlated.
 Print Assumptions C16_multicast_never_answered.
 Print Assumptions C16_handler_called_iff.
+Print Assumptions C16_model_is_the_translated_source.
